@@ -149,6 +149,59 @@ def size(expr):
     return sum(1 for _ in ast.walk(expr))
 
 
+class _Rename(ast.NodeTransformer):
+    def __init__(self, old, new):
+        self.old, self.new = old, new
+
+    def visit_Name(self, node):
+        if node.id == self.old and isinstance(node.ctx, ast.Load):
+            return ast.copy_location(ast.Name(id=self.new, ctx=ast.Load()), node)
+        return node
+
+
+class _Unroll(ast.NodeTransformer):
+    """[f(x) for x in <local bound to a short display>] is the display of
+    f(e) for each element e (the elements were evaluated when the display was
+    built, so only the evaluations of f remain, in order)"""
+
+    def __init__(self, env):
+        self.env = env
+        self.done = 0
+
+    def visit_ListComp(self, node):
+        if len(node.generators) != 1:
+            return node
+        g = node.generators[0]
+        if g.ifs or g.is_async or not isinstance(g.target, ast.Name):
+            return node
+        if not isinstance(g.iter, ast.Name) or self.env.get(g.iter.id) is None:
+            return node
+        it = self.env[g.iter.id]
+        if not isinstance(it, (ast.Tuple, ast.List)) or not 1 <= len(it.elts) <= 4 \
+                or any(isinstance(e, ast.Starred) for e in it.elts):
+            return node
+        if any(isinstance(x, (ast.Lambda, ast.ListComp, ast.SetComp, ast.DictComp,
+                              ast.GeneratorExp, ast.NamedExpr))
+               for x in ast.walk(node.elt)):
+            return node
+        elts = []
+        for k, e in enumerate(it.elts):
+            nm = '__unroll_%s_%d_%d' % (g.target.id, getattr(node, 'lineno', 0), k)
+            self.env[nm] = e
+            elts.append(_Rename(g.target.id, nm).visit(clone(node.elt)))
+        self.done += 1
+        return ast.copy_location(ast.List(elts=elts, ctx=ast.Load()), node)
+
+
+def unroll_stmt(a, env):
+    if not isinstance(a, (ast.Assign, ast.Return, ast.Expr)) or not any(
+            isinstance(x, ast.ListComp) for x in ast.walk(a)):
+        return a
+    u = _Unroll(env)
+    new = u.visit(clone(a))
+    return new if u.done else a
+
+
 def each(it):
     return ast.Call(func=ast.Name(id='EACH', ctx=ast.Load()), args=[it], keywords=[])
 
@@ -440,6 +493,8 @@ def summarise(func, limit=6000, to_raise=True, lists=False):
                 ps.order_nodes.append((n, lab))
                 continue
             # calls in evaluation order, resolved with the environment *before*
+            if h is a:
+                a = h = unroll_stmt(a, env)
             for x in eval_order(h):
                 if isinstance(x, ast.Call):
                     ps.events.append(Event('call', n, x, subst(x, env)))
